@@ -4,7 +4,7 @@ import json, sys
 
 BUILT = {
  "C01": ("model_checking", "E1 posgraph", "5.C01",
-   "Explicit-state model checking of the real Board: every position of bounded move trees below ~190 curated/mirrored roots (stateright, depth in key) and of completely enumerated 3-man, en-passant, castling and promotion families is judged against an independent mailbox reference generator: yielded set (missing/extra/duplicate), len, enumerate_moves, legal_quick, Board::legal on legal / pseudo-legal-illegal / wrong-promotion moves, and the complete 64x64x5 sweep on shallow states. Bounded exhaustive, not a proof for all positions.",
+   "Explicit-state model checking of the real Board: every position of bounded move trees below ~190 curated/mirrored roots (stateright, depth in key) and of completely enumerated 3-man, en-passant (one and two capturers, one enemy slider anywhere), castling, promotion and line-geometry (every king square x rays x pinned man / slider / battery) families is judged against an independent mailbox reference generator: yielded set (missing/extra/duplicate), len, enumerate_moves, legal_quick, Board::legal on legal / pseudo-legal-illegal / wrong-promotion moves, and the complete 64x64x5 sweep on shallow states. Bounded exhaustive, not a proof for all positions.",
    "reference move generator (validated at start-up against published perft constants); stateright 64-bit fingerprints; small-scope hypothesis for positions outside the universes",
    "explicit-state exploration of the implementation (stateright BFS/DFS + exhaustive family enumeration) against a reference model"),
  "C02": ("model_checking", "E1 posgraph", "5.C02",
@@ -32,7 +32,7 @@ BUILT = {
    "from-scratch construction through the library's own builder as the definition of 'the hash of a position'",
    "explicit-state exploration of the implementation; every arrival judged (path independence)"),
  "C09": ("model_checking", "E1 posgraph + sibling sweep", "5.C09",
-   "All single-component variants of ~1000 base positions must hash pairwise differently (exercises every Zobrist key that can occur); every position met in the standard universes enters a hash -> position collision table.",
+   "All single-component variants of ~700 (thorough ~3000) base positions must hash pairwise differently (exercises every Zobrist key that can occur); every position met in the standard universes, and every two-component variant of dense and state-rich bases, enters a hash -> position collision table.",
    "a true 64-bit collision has probability ~n^2/2^65 for n explored positions",
    "exhaustive sibling enumeration + collision table over explicit-state exploration"),
  "C17": ("model_checking", "E1 posgraph (differential)", "5.C17",
@@ -49,11 +49,11 @@ BUILT = {
    "reference validity predicate; debug-assertion build turns out-of-bounds access into a panic/abort (a release build would corrupt silently)",
    "exhaustive enumeration of bounded input spaces with a sandwich oracle; accepted inputs driven through the implementation"),
  "C10": ("model_checking", "E2 protocol", "5.C10",
-   "Every operation sequence (legal and illegal moves incl. all 20480 values near the root, offers, accepts, declarations, resignations) up to depth 3-7 from 35 roots incl. finished ones, on the real Game in lock step with a reference automaton; all observers compared after every operation; post-result operations must be refused and change nothing.",
+   "Every operation sequence (legal and illegal moves incl. all 20480 values near the root, offers, accepts, declarations, resignations) up to depth 3-7 from 35 roots incl. finished ones, on the real Game in lock step with a reference automaton; all observers compared after every operation; post-result operations must be refused and change nothing; plus a one-ply legality sweep over ~95k start positions and 300-ply games with a non-move operation spliced in before every action index.",
    "reference game automaton; return values the statement leaves open (offer/resign in an open game, accept with pending offer) are only checked for consistency",
    "exhaustive enumeration of API call sequences (history states) against a reference automaton"),
  "C11": ("model_checking", "E2 protocol", "5.C11",
-   "All sequences over small repetition menus to depth 9-11 and deviation-bounded long histories (0-2 events spliced into a 105-ply self-avoiding filler, every ply x every event kind) with can_declare_draw compared after every ply and declare_draw executed around the 99/100/101 boundary.",
+   "All sequences over small repetition menus to depth 9-11 and deviation-bounded long histories (0-2 events spliced into a 105-ply self-avoiding filler, every ply x every event kind) and long-span repetition walks (two kings on cycles of period a, b <= 12: every recurrence gap 2*lcm(a,b), with a deviation at every ply) with can_declare_draw compared after every ply and declare_draw executed around the 99/100/101 boundary and wherever the claim status changes.",
    "FIDE 9.2/9.3 on the reference game; tolerant zone T3 for the two readings of 'en-passant possibility'",
    "exhaustive menu sequences + deviation-bounded exploration of long histories against a reference claim rule"),
  "C12": ("model_checking", "E1 posgraph positions + E3 text sweep", "5.C12",
@@ -61,8 +61,8 @@ BUILT = {
    "independent SAN writer/interpreter; tolerant zone T4 for unvalidated markers and castling spelled as a king move",
    "exhaustive enumeration of spellings and grammar-complete texts per position against a reference interpreter"),
  "C13": ("exploration", "E3 sweep", "5.C13",
-   "All 20480 moves and 64 squares round-trip; every string up to length 5 (thorough 6) over a 30-symbol alphabet with multi-byte characters is parsed as move and as square: no panic, and a success renders to a prefix of the input.",
-   "the alphabet and length bound; longer strings only add an ignored tail or a length-5 promotion letter, both inside the bound",
+   "All 20480 moves and 64 squares round-trip; every string up to length 5 (thorough 6) over a 30-symbol alphabet with multi-byte characters is parsed as move and as square: no panic, and a success renders to a prefix of the input; all 1 112 064 Unicode scalar values substituted / inserted at every position of five texts; texts padded to every length 0..=1100 and 2^k +- 12.",
+   "the alphabet and length bound for the trie; single-character aliasing is covered for every scalar value, lengths up to 2^20",
    "complete enumeration of a finite input domain"),
  "C14": ("model_checking", "E2 protocol", "5.C14",
    "Per position every program [<=2 removals][<=3 mask phases][flush] within stated bounds is executed on the real MoveGen with len() and size_hint() read before every next(); judged against a reference remaining-move set.",
@@ -73,15 +73,15 @@ BUILT = {
    "noise on non-ray squares is a catalogue, not all subsets; needs a BMI2-capable CPU for the second configuration (otherwise reported as a cap)",
    "complete enumeration of ray occupancies in both build configurations"),
  "C16": ("exploration", "E3 sweep", "5.C16",
-   "Complete enumeration of all geometry tables and step helpers (4096 pairs, 64 squares, 2 colours, all pawn blocker combinations of the relevant squares) against coordinate-arithmetic definitions.",
-   "pawn noise on irrelevant squares is a catalogue of 5 patterns",
+   "Complete enumeration of all geometry tables and step helpers (4096 pairs, 64 squares, 2 colours, all pawn blocker combinations of the relevant squares) against coordinate-arithmetic definitions; Rank/File::from_index on large indices; call-order independence of line / between: all ordered call pairs in process and every possible first call in a fresh child process followed by the complete domain.",
+   "pawn noise on irrelevant squares is a catalogue (none, all, singles, pairs, ladders, local triples)",
    "complete enumeration of finite domains"),
  "C19": ("model_checking", "E2 protocol", "5.C19",
-   "Every add/replace_if sequence up to depth 4 (thorough 5) over 60 operations per size, sizes 1-8(16), two value types, replayed on the real table and a slot-array model with all lookups and predicate arguments compared; construction for 1000+ sizes.",
+   "Every add/replace_if sequence up to depth 4 (thorough: 5 as far as the budget allows) over 60 operations per size, sizes 1-8(16), two value types (further types and sizes to 2^20 at depth 1-2, a panicking predicate at depth 3), replayed on the real table and a slot-array model with all lookups and predicate arguments compared; construction for 1000+ sizes; thorough: tables of 2^31 / 2^32 entries in a child process when memory allows.",
    "6-hash alphabet per size chosen to collide and not collide; out-of-table access is loud only because of the debug-assertion build",
    "exhaustive enumeration of operation sequences against a reference model"),
  "C20": ("exploration", "E3 sweep", "5.C20",
-   "Set-algebra laws on ~4700 structured values (all <=2-bit boards, complements, rank/file unions, diagonals): unary laws on all, binary laws in all 19 operator forms on all pairs.",
+   "Set-algebra laws on ~4700 structured values (all <=2-bit boards, complements, rank/file unions, diagonals): unary laws on all, binary laws in all 19 operator forms on all pairs; quarter sweeps, 3- and 4-bit boards, popcount ladders; the whole Iterator protocol (size_hint, count, last, min, max, fold, nth incl. huge indices, skip, step_by, searching adaptors).",
    "laws are checked on the structured set, not all 2^64 values; operators are bitwise",
    "complete enumeration of a structured finite value set"),
 }
